@@ -172,7 +172,7 @@ def h_state(c, how):
     c.ensure("files.only_infile_and_outfile", [(x[1], x[2]) for x in opens] == [("in.pcapng", "rb"), ("out.pcapng", "wb")])
 
 
-@harness(["C18", "C06"], "run.writer_loop", functions=[M + ".run"])
+@harness(["C18", "C06", "C08"], "run.writer_loop", functions=[M + ".run"])
 def h_writer(c):
     """each (frame, ts) of each TLS session, then of each QUIC session, is serialised and written once, in order,
     with its own timestamp"""
